@@ -462,6 +462,71 @@ fn install_and_check(ctx: &Ctx, rng: &mut Rng, is128: bool, path: &str, st: &mut
     }
 }
 
+/// 128K: only banks 5 and 7 are display memory. Pictures are put into both, then other banks
+/// (0, 1, 3, 4, 6) are paged at 0xC000 and their first 6912 bytes overwritten by LDIR or pokes while
+/// either screen is shown; the canvas must stay the decode of the shown screen bank, also after the
+/// other screen has been switched in.
+fn foreign_bank_case(ctx: &Ctx, rng: &mut Rng, st: &mut St, case: u64) {
+    let mut cfg = Cfg::of(true);
+    cfg.sound = false;
+    cfg.fastload = true;
+    let mut m = Machine::new(cfg);
+    quiet(&mut m);
+    let p5 = random_screen(rng);
+    let p7 = random_screen(rng);
+    ldir_install(&mut m, &p5, 0x4000);
+    m.out(0x7FFD, 7);
+    ldir_install(&mut m, &p7, 0xC000);
+    let mut show7 = rng.bool();
+    let mut hist: Vec<String> = vec![];
+    for _ in 0..(2 + rng.below(4)) {
+        let b = *rng.pick(&[0u8, 1, 3, 4, 6, 6]);
+        m.out(0x7FFD, b | if show7 { 8 } else { 0 });
+        let noise = random_screen(rng);
+        match rng.below(3) {
+            0 => {
+                ldir_install(&mut m, &noise, 0xC000);
+                hist.push(format!("LDIR 6912 bytes into bank {} (screen {} shown)", b, if show7 { 7 } else { 5 }));
+            }
+            1 => {
+                m.poke_bytes(0xC000, &noise);
+                hist.push(format!("poke 6912 bytes into bank {} (screen {} shown)", b, if show7 { 7 } else { 5 }));
+            }
+            _ => {
+                let from = rng.below(6000) as usize;
+                let len = 1 + rng.below(900) as usize;
+                m.poke_bytes(0xC000 + from as u16, &noise[from..from + len]);
+                hist.push(format!("poke {} bytes at offset {:04x} of bank {} (screen {} shown)", len, from, b, if show7 { 7 } else { 5 }));
+            }
+        }
+        if rng.bool() {
+            show7 = !show7;
+            m.out(0x7FFD, b | if show7 { 8 } else { 0 });
+        }
+    }
+    quiet(&mut m);
+    for pass in 0..2 {
+        let q = 2 + rng.below(2) as usize;
+        m.run_frames(q);
+        st.frames += q as u64;
+        st.screens += 1;
+        let want = if show7 { &p7 } else { &p5 };
+        if matches(&m, want).is_none() {
+            ctx.violation(
+                "canvas:128k:foreign-bank-write",
+                &format!("after writes into RAM banks that are not display memory the canvas is not the standard decode of bank {} ({}): {}", if show7 { 7 } else { 5 }, if pass == 0 { "shown during the last write" } else { "switched in afterwards" }, first_diff(&m, want)),
+                jobj! {"case"=>case,"stream"=>"foreign-bank","history"=>J::Arr(hist.iter().map(|h| J::from(h.as_str())).collect()),"shown_bank"=>if show7 { 7 } else { 5 }},
+            );
+            return;
+        }
+        show7 = !show7;
+        let keep = m.emu.verif_paging().0 & 7;
+        m.out(0x7FFD, keep | if show7 { 8 } else { 0 });
+        quiet(&mut m);
+    }
+    st.paths.insert("true:foreign-bank-writes".into());
+}
+
 /// flash: phase uniform within a frame and flipping exactly every 16 frames
 fn flash_run(ctx: &Ctx, rng: &mut Rng, is128: bool, st: &mut St) {
     let mut m = Machine::new(Cfg { sound: false, ..Cfg::of(is128) });
@@ -620,9 +685,14 @@ pub fn run(ctx: &Ctx) -> Evidence {
             let mut rng = Rng::fork(ctx.seed ^ 0xC08F, sh as u64);
             flash_run(ctx, &mut rng, sh % 2 == 1, &mut st);
         }
+        for i in 0..(n / shards / 8).max(2) {
+            let case = (sh * (n / shards / 8).max(2) + i) as u64;
+            let mut rng = Rng::fork(ctx.seed ^ 0xC08_F0, case);
+            foreign_bank_case(ctx, &mut rng, &mut st, case);
+        }
         st
     });
-    let mut ev = Evidence::new("random and structured 6912-byte screens installed through 12 paths (LDIR to 0x4000, LDIR through 0xC000 with bank 5 / bank 7 shown, individual stores, tape fast-load of a CODE block, SNA snapshot, SCR file, pokes, screen-bank toggling) on 48K/128K, 2-4 quiet frames, canvas compared pixel-exactly with the standard decode (either flash phase, uniform per frame); 56-frame flash runs (flip exactly every 16); single stores at random beam times judged when >= 2 lines before/after the fetch. distinct = (machine, path) combinations exercised");
+    let mut ev = Evidence::new("random and structured 6912-byte screens installed through 12 paths (LDIR to 0x4000, LDIR through 0xC000 with bank 5 / bank 7 shown, individual stores, tape fast-load of a CODE block, SNA snapshot, SCR file, pokes, screen-bank toggling) on 48K/128K, writes into the other RAM banks through 0xC000 while either screen is shown (128K), 2-4 quiet frames, canvas compared pixel-exactly with the standard decode (either flash phase, uniform per frame); 56-frame flash runs (flip exactly every 16); single stores at random beam times judged when >= 2 lines before/after the fetch. distinct = (machine, path) combinations exercised");
     let mut paths = HashSet::new();
     for r in res {
         ev.evaluations += r.screens + r.beam_cases;
